@@ -161,6 +161,7 @@ fn main() {
         "hostile" => vharness::hostile::run(seed, n, thorough, &corpus, &dir),
         "sasl" => vharness::sasl::run(seed, n, thorough, &corpus, &dir),
         "saslm" => vharness::sasl::run_model(seed, n, thorough, &corpus, &dir),
+        "saslc" => vharness::sasl::run_model_c(seed, n, thorough, &corpus, &dir),
         "c08" => vharness::c08::run(seed, n, thorough, &corpus, &dir),
         "c08w" => vharness::c08::run_wake(seed, n, &dir),
         "typed" => vharness::typed::run(seed, n, thorough, &corpus, &dir),
